@@ -31,11 +31,11 @@ ASSUMPTIONS = [
     "lmax values {4, 6, 10}; the harness passes full_lmax explicitly (the constructor default only supports lmax = 10, which is a rejection not a wrong grid)",
 ]
 DEPTH = 3
-MOLS = ["He", "LiH", "H2O", "OH"]
+MOLS = ["He", "LiH", "H2O", "OH", "HOH"]
 LMAXS = [4, 6, 10]
 OPS = [
     "build", "build:nosort", "build:non0", "prune:1e-12", "prune:1e-6", "prune:1e-2", "prune:0", "reset",
-    "set:level1", "set:grid15x26", "set:grid20x50", "set:prune-none", "set:prune-nwchem", "set:align1", "set:align8",
+    "set:level1", "set:grid15x26", "set:grid20x50", "set:grid-elem", "set:prune-none", "set:prune-nwchem", "set:align1", "set:align8",
 ]
 
 
@@ -102,6 +102,9 @@ def _apply(mol, lmax, hist):
                 if what == "level1":
                     x.level = 1
                     x.atom_grid = {}
+                elif what == "grid-elem":
+                    # per-element sizes: hydrogen gets a different radial/angular table than the other elements
+                    x.atom_grid = {mol.atom_symbol(i): ((15, 26) if mol.atom_symbol(i) == "H" else (20, 50)) for i in range(mol.natm)}
                 elif what.startswith("grid"):
                     a, b = what[4:].split("x")
                     x.atom_grid = (int(a), int(b))
